@@ -780,3 +780,72 @@ Example C20_graph_import_run_ghosts_example :
      (Some 2, Some 2)]%nat /\
   map fst (r_G (run t (fun b => b) ws h)) = [0; 2; 3]%nat.
 Proof. exact run_ghosts_example. Qed.
+
+(* ------------------------------------------------------------------------------------------
+   FindAncestor (Graph.find_ancestor) on reachable graphs, and ONE Round.update (closer round).
+   C20_graph_find_ancestor: on a graph with the invariants of every reachable state, from a start
+   block with a vote-node at or below it, for a condition on bit lists that agrees with a block
+   predicate P on the exact set of bits inserted at or below a block, FindAncestor is
+   Tree.find_anc P: the highest block of the chain of h (on a vote-node or inside an ancestor edge)
+   that satisfies P -- sound and maximal. *)
+From C20 Require Import GraphRunState.
+Theorem C20_graph_find_ancestor : forall t lbl G heads ins, full_inv t G heads ins ->
+  forall (cond : list bit -> bool) (P : block -> bool),
+  (forall b bits, (forall bt, memb bt bits = ins_bit t ins bt b) -> cond bits = P b) ->
+  forall fuel h, (depth t h < fuel)%nat -> (exists z ez, eget z G = Some ez /\ anc t h z) ->
+  find_ancestor t lbl fuel G heads h cond = find_anc t P h /\
+  (forall x, find_ancestor t lbl fuel G heads h cond = Some x ->
+     anc t x h /\ P x = true /\ forall y, anc t y h -> P y = true -> anc t y x) /\
+  (find_ancestor t lbl fuel G heads h cond = None -> forall y, anc t y h -> P y = false).
+Proof. exact find_ancestor_full_inv. Qed.
+Print Assumptions C20_graph_find_ancestor.
+
+(* the two conditions of Round.update against the specification weights, in every reach_all state *)
+Theorem C20_graph_find_ancestor_finalized : forall t lbl ws G heads eqv S ins,
+  reach_all t lbl G heads eqv S ins ->
+  forall fuel h, (depth t h < fuel)%nat -> (exists z ez, eget z G = Some ez /\ anc t h z) ->
+  find_ancestor t lbl fuel G heads h (cond_ph ws eqv 1) = find_anc t (has_supermajority t ws (S 1%nat)) h.
+Proof. exact reach_all_find_ancestor_supermajority. Qed.
+Print Assumptions C20_graph_find_ancestor_finalized.
+
+Theorem C20_graph_find_ancestor_estimate : forall t lbl ws G heads eqv S ins,
+  reach_all t lbl G heads eqv S ins ->
+  forall fuel h, (depth t h < fuel)%nat -> (exists z ez, eget z G = Some ez /\ anc t h z) ->
+  total ws < 18446744073709551616 -> tolerant ws (S 1%nat) = true ->
+  find_ancestor t lbl fuel G heads h (possible_bits ws eqv (cur_weight ws (S 1%nat))) =
+  find_anc t (possible t ws (S 1%nat)) h.
+Proof. exact reach_all_find_ancestor_possible. Qed.
+Print Assumptions C20_graph_find_ancestor_estimate.
+
+(* PARTIAL (one step, finalized and estimate only): Round.update on a state whose graph is
+   reachable for the vote sets S and whose memoised prevote ghost is the specification's makes
+   r_fin / r_est the specification's finalized / estimate of S, whatever earlier vote sets the old
+   fields were computed for.  Open: r_compl, and the induction along the run. *)
+Theorem C20_graph_update_state_partial : forall t lbl ws, 0 < total ws -> total ws < 18446744073709551616 ->
+  forall s S ins V0 C0,
+  rel t lbl s S ins -> tolerant ws (S 0%nat) = true -> tolerant ws (S 1%nat) = true ->
+  r_pvg s = ghost t ws (S 0%nat) -> subset V0 (S 0%nat) -> subset C0 (S 1%nat) ->
+  r_fin s = finalized t ws V0 C0 -> r_est s = estimate t ws V0 C0 ->
+  r_fin (update t lbl ws s) = finalized t ws (S 0%nat) (S 1%nat) /\
+  r_est (update t lbl ws s) = estimate t ws (S 0%nat) (S 1%nat).
+Proof. exact update_fin_est. Qed.
+Print Assumptions C20_graph_update_state_partial.
+
+(* non-vacuity: finalized appears inside an ancestor edge (block 1 has no vote-node), the round
+   becomes completable, then the estimate moves from block 2 down to block 1; the mirror's fields
+   are the specification's after every prefix *)
+Example C20_graph_run_state_example :
+  let t := [0; 1; 1]%nat in let ws := [1; 1; 1; 1]%N in
+  let h := [(0, mkVote 0 2 0); (0, mkVote 1 2 0); (0, mkVote 2 2 0); (0, mkVote 3 3 0);
+            (1, mkVote 0 2 0); (1, mkVote 1 3 0); (1, mkVote 2 3 0); (1, mkVote 3 3 0)]%nat in
+  map (fun k => let s := run t (fun b => b) ws (firstn k h) in (r_fin s, r_est s, r_compl s)) (seq 0 9) =
+    [(None, None, false); (None, None, false); (None, None, false); (None, Some 2, false);
+     (None, Some 2, false); (None, Some 2, false); (None, Some 2, false); (Some 1, Some 2, true);
+     (Some 1, Some 1, true)]%nat /\
+  map (fun k => let V := votes_of 0 (firstn k h) in let C := votes_of 1 (firstn k h) in
+                (finalized t ws V C, estimate t ws V C, completable t ws V C)) (seq 0 9) =
+    [(None, None, false); (None, None, false); (None, None, false); (None, Some 2, false);
+     (None, Some 2, false); (None, Some 2, false); (None, Some 2, false); (Some 1, Some 2, true);
+     (Some 1, Some 1, true)]%nat /\
+  map fst (r_G (run t (fun b => b) ws h)) = [0; 2; 3]%nat.
+Proof. exact run_state_example. Qed.
